@@ -4,7 +4,8 @@
    correspondence check props/c02.py (per-layer over the probe backend for N, M in 1..4
    independently; sampled stacks from the grammar). *)
 From Coq Require Import ZArith List Bool.
-From Covfie Require Import Layout Stack StackProofs.
+From Covfie Require Import Layout Stack StackProofs PackLang Refine_Packs.
+From Covfie.gen Require Import Gen_Packs.
 Import ListNotations.
 Local Open Scope Z_scope.
 
@@ -67,7 +68,21 @@ Theorem C02_shuffle_shuffle : forall p q (b : query) c, Forall (fun i => (i < le
   shuffle_at q (shuffle_at p b) c = shuffle_at (map (fun i => nth i q O) p) b c.
 Proof. exact shuffle_shuffle. Qed.
 
+(* tie to the source: the clamp, permutation and cast layers of the interpreter ARE the pack expansions
+   translated from clamp.hpp / shuffle.hpp / covariant_cast.hpp on this run *)
+Theorem C02_clamp_is_the_source : forall ops t lo hi (b : query) c, length lo = length c -> length hi = length c ->
+  eval_at (clamp_env c lo hi) (clamp_fn ops t) (fun _ _ => None) b gen_clamp_at gen_clamp_elem (seq 0 (length c)) = clamp_at ops t lo hi b c.
+Proof. exact clamp_layer_refines. Qed.
+Theorem C02_shuffle_is_the_source : forall (p : list nat) (b : query) c, Forall (fun i => (i < length c)%nat) p ->
+  eval_at (c_env c) (fun _ _ => None) (fun _ _ => None) b gen_shuffle_at gen_shuffle_elem p = shuffle_at p b c.
+Proof. exact shuffle_layer_refines. Qed.
+Theorem C02_cast_is_the_source : forall ops from to (b : query) c tr v, b c = Some (tr, v) ->
+  eval_at (c_env c) (fun _ _ => None) (cast_fn ops from to) b gen_covariant_cast_at gen_covariant_cast_elem (seq 0 (length v)) = cast_at ops from to b c.
+Proof. exact cast_layer_refines. Qed.
+
 Print Assumptions C02_eval_cons.
+Print Assumptions C02_clamp_is_the_source.
+Print Assumptions C02_cast_is_the_source.
 Print Assumptions C02_layer_parametric.
 Print Assumptions C02_eval_depends_only_on_backend.
 Print Assumptions C02_shuffle_shuffle.
